@@ -408,6 +408,79 @@ def check_cloud(case, R):
             R.outcome(n, max(sum(1 for q in got if q == i) for i in range(n)), round(sum(D[i][got[i]] for i in range(1, n)), 6))
 
 
+def greedy_np(D, bf, k, excl):
+    """The reference construction of `greedy`, evaluated with array operations (float64) for the size sweep; same tie rule."""
+    A = np.asarray(D, dtype=np.float64)
+    n = A.shape[0]
+    pid = [-1] * n
+    acc = np.zeros(n)
+    nch = np.zeros(n, dtype=np.int64)
+    conn = np.zeros(n, dtype=bool)
+    conn[0] = True
+    for _ in range(n - 1):
+        rows = conn.copy()
+        if k != -1:
+            full = nch >= k
+            if excl:
+                full[0] = False
+            rows &= ~full
+        ri = np.flatnonzero(rows)
+        ci = np.flatnonzero(~conn)
+        if len(ri) == 0:
+            return None, "stuck"
+        C = A[np.ix_(ri, ci)] + bf * acc[ri][:, None]
+        flat = C.ravel()
+        a = int(flat.argmin())
+        best = float(flat[a])
+        if flat.size > 1:
+            second = float(np.partition(flat, 1)[1])
+            if second - best < TIE * max(1.0, best):
+                return None, "tie"
+        i, j = int(ri[a // len(ci)]), int(ci[a % len(ci)])
+        pid[j] = i
+        acc[j] = acc[i] + A[i, j]
+        nch[i] += 1
+        conn[j] = True
+    return pid, None
+
+
+SIZE_CONFIGS = [
+    # (class, bf, limit, exclude_soma, soma mode, sort) - rotated over the sizes so that every size meets the plain MST in both soma
+    # modes and one balanced / limited configuration
+    ("mst", 0.0, -1, True, "first", True),
+    ("cuntz", 0.0, -1, True, "soma", False),
+    ("cuntz", 0.5, -1, True, "first", True),
+    ("cuntz", 0.2, 2, True, "soma", True),
+    ("cuntz", 1.0, 3, False, "first", False),
+]
+
+
+def check_size(case, R):
+    """Every cloud size over a range (block sizes, buffers and 'small input' paths fail in narrow bands of n)."""
+    from swcgeom.transforms import PointsToCuntzMST, PointsToMST
+
+    n, ci = int(case[0]), int(case[1])
+    cls, bf, k, excl, mode, sort = SIZE_CONFIGS[ci]
+    pts = cloud(n)
+    R.state(n, ci)
+    D = dist_matrix(pts)
+    mst_len = kruskal_length(D) if bf == 0 and k == -1 else 0.0
+    want, why = greedy_np(D, bf, k, excl)
+    if want is None:
+        R.skip(f"reference-{why}")
+    arr = np.array(pts, dtype=np.float64)
+    P, soma = (arr, None) if mode == "first" else (arr[1:], arr[0])
+    what = f"{cls}(bf={bf}, furcations={k}, exclude_soma={excl}, sort={sort}) on the {n}-point cloud, soma {mode}"
+    if cls == "mst":
+        ok, t = R.impl("PointsToMST", lambda: PointsToMST(k, exclude_soma=excl, sort=sort)(P, soma))
+    else:
+        ok, t = R.impl("PointsToCuntzMST", lambda: PointsToCuntzMST(bf=bf, furcations=k, exclude_soma=excl, sort=sort)(P, soma))
+    if ok:
+        got = judge(R, what, "sizes", pts, D, t, bf, k, excl, want, mst_len)
+        if got:
+            R.outcome(ci, n // 32)
+
+
 def spaces(tier, seed):
     q = tier == "quick"
     m_hi = 5 if q else 6
@@ -436,7 +509,20 @@ def spaces(tier, seed):
                     for tr in itertools.product(small, repeat=3):
                         yield (bk, kind, tr)
 
+    size_hi = 300 if q else 600
+    windows = [] if q else [w for m in (3, 4) for w in range(256 * m - 3, 256 * m + 4)]
+
+    def gen_sizes():
+        for n in list(range(2, size_hi + 1)) + windows:
+            for ci in range(len(SIZE_CONFIGS)):
+                if n <= 140 or ci < 2 or (n + ci) % 3 == 0 or (n % 64) in (63, 0, 1, 2):
+                    yield (n, ci)
+
     return [
+        Space.of("sizes", gen_sizes, check_size, case_timeout=600.0,
+                 bounds={"cloud_sizes": f"every n in 2..{size_hi}" + ("" if q else " and 765..771, 1021..1027"), "configurations": [list(c) for c in SIZE_CONFIGS],
+                         "note": "both plain-MST configurations (soma first / soma given, i.e. n and n-1 input rows) at every size; the three balanced / limited "
+                                 "ones at every size <= 140, around every multiple of 64, and every third size otherwise"}),
         Space.of("history", gen_history, check_history,
                  bounds={"banks": list(banks), "instances": list(HISTORY_INSTANCES), "pool": len(hpool),
                          "sequences": "every ordered pair (A, B) of pool clouds: A, B, A again, A edited in place" + ("" if q else "; every ordered triple of the clouds with <= 3 points")}),
